@@ -27,7 +27,6 @@ import json
 import os
 import pkgutil
 import random
-import sys
 
 from .. import keypool, refcodec
 from ..core import ROOT, Ctx, HarnessError, Violation, digest, hyp_run, shard_run
